@@ -36,6 +36,7 @@ MK = """
 //@   loop 3 invariant forall k int :: k in $visited ==> dkgQ(m.payload)[k].Status == internal.MasterKeyConfirmed
 //@   loop 3 invariant unchanged("*internal.DumpedMachineStatePayload", "*internal.DKGConfirmation", "*internal.SignatureConfirmation", "map[int]*internal.DKGProposalParticipant", internal.DKGProposalParticipant.DkgCommit, internal.DKGProposalParticipant.DkgDeal, internal.DKGProposalParticipant.DkgResponse, internal.DKGProposalParticipant.DkgMasterKey, internal.DKGProposalParticipant.Error, internal.DKGProposalParticipant.Username, "[]byte")
 //@   ensures[C05.mkmismatch,C02.mismatch] !old(dkgExpired(m)) && !old(dkgAny(m.payload, internal.MasterKeyConfirmationError)) && old(exists a int, b int :: (a in dkgQ(m.payload)) && (b in dkgQ(m.payload)) && dkgQ(m.payload)[a].Status == internal.MasterKeyConfirmed && dkgQ(m.payload)[b].Status == internal.MasterKeyConfirmed && !sameKey(mkOf(m, a), mkOf(m, b))) ==> outEvent == eventDKGMasterKeyConfirmationCancelByErrorInternal && (forall k int :: k in dkgQ(m.payload) ==> dkgQ(m.payload)[k].Status == internal.MasterKeyConfirmationError)
+//@   ensures[C05.phasekeep] outEvent == "" && old(dkgPhaseOk(m.payload, internal.MasterKeyAwaitConfirmation, internal.MasterKeyConfirmed)) ==> dkgPhaseOk(m.payload, internal.MasterKeyAwaitConfirmation, internal.MasterKeyConfirmed)
 //@   ensures[C05.mkwait] !old(dkgExpired(m)) && !old(dkgAny(m.payload, internal.MasterKeyConfirmationError)) && outEvent == "" ==> old(dkgCnt(m.payload, internal.MasterKeyConfirmed)) < old(len(dkgQ(m.payload))) && dkgViewsSame(m)
 //@   ensures[C05.advance] !old(dkgExpired(m)) && !old(dkgAny(m.payload, internal.MasterKeyConfirmationError)) && old(dkgCnt(m.payload, internal.MasterKeyConfirmed)) == old(len(dkgQ(m.payload))) && old(forall a int, b int :: (a in dkgQ(m.payload)) && (b in dkgQ(m.payload)) ==> sameKey(mkOf(m, a), mkOf(m, b))) ==> outEvent == eventDKGMasterKeyConfirmedInternal
 //@   ensures[C02.agree,C05.mkagree] outEvent == eventDKGMasterKeyConfirmedInternal ==> old(dkgCnt(m.payload, internal.MasterKeyConfirmed)) == old(len(dkgQ(m.payload))) && (forall a int, b int :: (a in dkgQ(m.payload)) && (b in dkgQ(m.payload)) ==> sameKey(mkOf(m, a), mkOf(m, b)))
@@ -64,6 +65,7 @@ ERRACT = """
 //@   ensures[C05.initnoop] old(m.payload.DKGProposalPayload) != nil ==> err == nil && outEvent == "" && response == nil && dkgViewsSame(m)
 //@   ensures[C05.reject,C18.reject] err != nil ==> dkgViewsSame(m)
 //@   ensures[C05.initdkg] old(m.payload.DKGProposalPayload) == nil && err == nil ==> outEvent == inEvent && dp(m) != nil && fresh(dp(m)) && dkgQ(m.payload) != nil && dom(dkgQ(m.payload)) == old(dom(sigQ(m.payload))) && (forall k int :: k in dkgQ(m.payload) ==> dkgQ(m.payload)[k] != nil && dkgQ(m.payload)[k].Status == internal.CommitAwaitConfirmation && dkgQ(m.payload)[k].Username == old(sigQ(m.payload)[k].Username) && dkgQ(m.payload)[k].Error == nil)
+//@   ensures[C05.initdkg.inj] old(m.payload.DKGProposalPayload) == nil && err == nil ==> injDkg(dkgQ(m.payload)) && dkgPhaseOk(m.payload, internal.CommitAwaitConfirmation, internal.CommitConfirmed) && !dkgAny(m.payload, internal.CommitConfirmationError) && wfDkgQ(m.payload)
 //@   ensures[C05.keep] unchanged("*internal.SignatureConfirmation", "*internal.SignatureProposalParticipant", "map[int]*internal.SignatureProposalParticipant") && m.payload.Threshold == old(m.payload.Threshold) && m.payload.SigningProposalPayload == old(m.payload.SigningProposalPayload) && m.payload.SignatureProposalPayload == old(m.payload.SignatureProposalPayload)
 //@   loop 0 invariant dp(m) != nil && fresh(dp(m)) && dkgQ(m.payload) != nil && fresh(dkgQ(m.payload))
 //@   loop 0 invariant dom(dkgQ(m.payload)) == $visited
@@ -93,6 +95,8 @@ package dkg_proposal_fsm
 //@ spec func wfDkg(m *DKGProposalFSM) bool = m != nil && m.payload != nil && wfDkgQ(m.payload)
 //@ spec func dkgExpired(m *DKGProposalFSM) bool = timeBefore(dp(m).ExpiresAt, dp(m).UpdatedAt)
 //@ spec func dkgCnt(p *internal.DumpedMachineStatePayload, w internal.DKGParticipantStatus) int = cntSt(dom(dkgQ(p)), vals(dkgQ(p)), fieldmap(internal.DKGProposalParticipant.Status), w)
+//@ spec func dkgCntOldQ(p *internal.DumpedMachineStatePayload, w internal.DKGParticipantStatus) int = cntSt(old(dom(dkgQ(p))), old(vals(dkgQ(p))), fieldmap(internal.DKGProposalParticipant.Status), w)
+//@ spec func dkgPhaseOk(p *internal.DumpedMachineStatePayload, a internal.DKGParticipantStatus, b internal.DKGParticipantStatus) bool = forall k int :: k in dkgQ(p) ==> dkgQ(p)[k].Status == a || dkgQ(p)[k].Status == b
 //@ spec func dkgAny(p *internal.DumpedMachineStatePayload, w internal.DKGParticipantStatus) bool = exists k int :: (k in dkgQ(p)) && dkgQ(p)[k].Status == w
 //
 // nothing observable about the DKG round changed
@@ -113,7 +117,9 @@ for ph in phases:
 
 //@ func (*DKGProposalFSM).%(act)s
 //@   safety C18
-//@   requires wfDkg(m)
+//@   requires wfDkg(m) && injDkg(dkgQ(m.payload))
+//@   ensures[C05.count] err == nil ==> dkgCntOldQ(m.payload, internal.%(ok)s) == old(dkgCnt(m.payload, internal.%(ok)s)) + 1 && len(dkgQ(m.payload)) == old(len(dkgQ(m.payload)))
+//@   ensures[C05.phasekeep] err == nil && old(dkgPhaseOk(m.payload, internal.%(aw)s, internal.%(ok)s)) ==> dkgPhaseOk(m.payload, internal.%(aw)s, internal.%(ok)s) && !dkgAny(m.payload, internal.%(er)s)
 //@   ensures[C05.reject,C18.reject] err != nil ==> dkgViewsSame(m)
 //@   ensures[C05.shape] outEvent == "" && response == nil
 //@   ensures[C05.once] err == nil ==> is%(n)sReq(args) && old(rq%(n)s(args).ParticipantId in dkgQ(m.payload)) && old(dkgQ(m.payload)[rq%(n)s(args).ParticipantId].Status) == internal.%(aw)s && dkgQ(m.payload)[rq%(n)s(args).ParticipantId].Status == internal.%(ok)s
@@ -127,12 +133,14 @@ for ph in phases:
 //@   safety C18
 //@   requires wfDkg(m) && dkgQ(m.payload) != nil && injDkg(dkgQ(m.payload))
 //@   ensures[C05.noerr] err == nil
-//@   ensures[C05.timeout] old(dkgExpired(m)) ==> outEvent == %(tmo)s && response == nil && dkgViewsSame(m)
-//@   ensures[C05.cancel] !old(dkgExpired(m)) && old(dkgAny(m.payload, internal.%(er)s)) ==> outEvent == %(cerr)s && response == nil""" % ph + (" && dkgViewsSame(m)" if ph["nxt"] else "") )
+//@   ensures[C05.outs] outEvent == "" || outEvent == %(tmo)s || outEvent == %(cerr)s || outEvent == %(conf)s
+%(cancelonly)s//@   ensures[C05.timeout] old(dkgExpired(m)) ==> outEvent == %(tmo)s && response == nil && dkgViewsSame(m)
+//@   ensures[C05.cancel] !old(dkgExpired(m)) && old(dkgAny(m.payload, internal.%(er)s)) ==> outEvent == %(cerr)s && response == nil""" % dict(ph, cancelonly=("//@   ensures[C05.cancel.only] outEvent == %(cerr)s ==> old(dkgAny(m.payload, internal.%(er)s))\n" % ph if ph["nxt"] else "")) + (" && dkgViewsSame(m)" if ph["nxt"] else "") )
     if ph["nxt"]:
         w("""//@   ensures[C05.wait] !old(dkgExpired(m)) && !old(dkgAny(m.payload, internal.%(er)s)) && old(dkgCnt(m.payload, internal.%(ok)s)) < old(len(dkgQ(m.payload))) ==> outEvent == "" && response == nil && dkgViewsSame(m)
 //@   ensures[C05.advance] !old(dkgExpired(m)) && !old(dkgAny(m.payload, internal.%(er)s)) && old(dkgCnt(m.payload, internal.%(ok)s)) == old(len(dkgQ(m.payload))) ==> outEvent == %(conf)s
 //@   ensures[C05.advanced.status] outEvent == %(conf)s ==> (forall k int :: k in dkgQ(m.payload) ==> dkgQ(m.payload)[k].Status == internal.%(nxt)s)
+//@   ensures[C05.phasekeep] outEvent != %(conf)s && old(dkgPhaseOk(m.payload, internal.%(aw)s, internal.%(ok)s)) ==> dkgPhaseOk(m.payload, internal.%(aw)s, internal.%(ok)s)
 //@   ensures[C05.keep] unchanged("*internal.DumpedMachineStatePayload", "*internal.DKGConfirmation", "*internal.SignatureConfirmation", "map[int]*internal.DKGProposalParticipant", internal.DKGProposalParticipant.DkgCommit, internal.DKGProposalParticipant.DkgDeal, internal.DKGProposalParticipant.DkgResponse, internal.DKGProposalParticipant.DkgMasterKey, internal.DKGProposalParticipant.Error, internal.DKGProposalParticipant.Username, "[]byte")
 //@   loop 0 invariant isContainsError == (exists k int :: (k in $visited) && dkgQ(m.payload)[k].Status == internal.%(er)s)
 //@   loop 0 invariant %(uv)s == len(dkgQ(m.payload)) - cntSt($visited, vals(dkgQ(m.payload)), fieldmap(internal.DKGProposalParticipant.Status), internal.%(ok)s)
